@@ -857,3 +857,13 @@ def option_iter(ctx, args, st):
     r = args[0]
     while isinstance(st.deref(r), Ref): r = st.deref(r)
     return ret(st, mk_list_iter([Ref(r.alloc, r.path + (0,), False)] if o.variant == 'Some' else []))
+
+
+@model(r'^<(?:std::result::|core::result::)?Result<.*> as Clone>::clone$|^<(?:std::option::|core::option::)?Option<.*> as Clone>::clone$')
+def result_option_clone(ctx, args, st):
+    """values are immutable in this interpreter: a clone of a Result/Option is the same value (Arc reference counts are not modelled)"""
+    v = args[0]
+    while isinstance(v, Ref) and isinstance(st.deref(v), (Ref,)): v = st.deref(v)
+    t = st.deref(v) if isinstance(v, Ref) else v
+    if not (isinstance(t, Adt) and t.ty in ('Result', 'Option')): raise Unsupported(f'clone of {t!r}')
+    return ret(st, t)
